@@ -118,6 +118,72 @@ pub fn gen_program(r: &mut Rng, cfg: &GenCfg) -> MProgram {
     p
 }
 
+/// "Multi-answer" programs: a trait with 4-7 impls of which several share an outer shape (`Vec<A>`, `Vec<B>`,
+/// `Vec<Bx<C>>`) and one or two do not (`C`, `Pair<A, B>`), optionally guarded by where-clauses on a second trait with
+/// a blanket impl over an auto-like trait. Goals with unknowns then have many answers whose anti-unification is
+/// non-trivial for a prefix and trivial overall — the situation the aggregation logic has to get right.
+pub fn gen_multi_answer(r: &mut Rng) -> (MProgram, Vec<(MGoal, Vec<usize>)>) {
+    let mut p = MProgram::default();
+    for n in ["A", "B", "C", "D"] {
+        p.structs.push(MStruct { name: n.into(), ..Default::default() });
+    }
+    p.structs.push(MStruct { name: "Vec".into(), nparams: 1, ..Default::default() });
+    p.structs.push(MStruct { name: "Bx".into(), nparams: 1, ..Default::default() });
+    p.structs.push(MStruct { name: "Pair".into(), nparams: 2, ..Default::default() });
+    p.traits.push(MTrait { name: "T0".into(), ..Default::default() });
+    p.traits.push(MTrait { name: "T1".into(), ..Default::default() });
+    p.traits.push(MTrait { name: "T2".into(), nparams: 1, ..Default::default() });
+    let leaf = |r: &mut Rng| MTy::nullary(*r.pick(&["A", "B", "C", "D"]));
+    let outer = *r.pick(&["Vec", "Bx"]);
+    let mut heads: Vec<MTy> = vec![];
+    for _ in 0..2 + r.below(3) {
+        let inner = if r.chance(25) { MTy::app("Bx", vec![leaf(r)]) } else { leaf(r) };
+        heads.push(MTy::app(outer, vec![inner]));
+    }
+    for _ in 0..1 + r.below(2) {
+        heads.push(match r.below(3) {
+            0 => leaf(r),
+            1 => MTy::app("Pair", vec![leaf(r), leaf(r)]),
+            _ => MTy::app(if outer == "Vec" { "Bx" } else { "Vec" }, vec![leaf(r)]),
+        });
+    }
+    heads.dedup();
+    // the position of the odd ones among the others decides when the guidance becomes trivial
+    r.shuffle(&mut heads);
+    for h in &heads {
+        let wheres = if r.chance(25) { vec![MPred::new("T1", vec![h.clone()])] } else { vec![] };
+        p.impls.push(MImpl { head: MPred::new("T0", vec![h.clone()]), wheres, positive: true, ..Default::default() });
+    }
+    // T1: some of the heads, some failing candidates
+    for h in &heads {
+        if r.chance(60) {
+            p.impls.push(MImpl { head: MPred::new("T1", vec![h.clone()]), positive: true, ..Default::default() });
+        }
+    }
+    if r.chance(30) {
+        p.impls.push(MImpl { nvars: 1, head: MPred::new("T1", vec![MTy::app(outer, vec![MTy::Var(0)])]), positive: true, ..Default::default() });
+    }
+    // T2<X>: relation with a generic and a specific impl (answers with shared variables)
+    if r.chance(60) {
+        p.impls.push(MImpl { nvars: 1, head: MPred::new("T2", vec![MTy::app("Vec", vec![MTy::Var(0)]), MTy::Var(0)]), positive: true, ..Default::default() });
+        p.impls.push(MImpl { head: MPred::new("T2", vec![MTy::app("Vec", vec![leaf(r)]), leaf(r)]), positive: true, ..Default::default() });
+    }
+    let v = |i: usize| MTy::Var(i);
+    let pool: Vec<(MGoal, Vec<usize>)> = vec![
+        (MGoal::Exists(vec![0], 0, Box::new(MGoal::Pred(MPred::new("T0", vec![v(0)])))), vec![0]),
+        (MGoal::Exists(vec![0], 0, Box::new(MGoal::And(vec![MGoal::Pred(MPred::new("T0", vec![v(0)])), MGoal::Pred(MPred::new("T1", vec![v(0)]))]))), vec![0]),
+        (MGoal::Exists(vec![0], 0, Box::new(MGoal::And(vec![MGoal::Pred(MPred::new("T1", vec![v(0)])), MGoal::Pred(MPred::new("T0", vec![v(0)]))]))), vec![0]),
+        (MGoal::Exists(vec![0], 0, Box::new(MGoal::Pred(MPred::new("T0", vec![MTy::app(outer, vec![v(0)])])))), vec![0]),
+        (MGoal::Exists(vec![0, 1], 0, Box::new(MGoal::Pred(MPred::new("T2", vec![v(0), v(1)])))), vec![0, 1]),
+        (MGoal::Exists(vec![0, 1], 0, Box::new(MGoal::And(vec![MGoal::Pred(MPred::new("T0", vec![v(0)])), MGoal::Pred(MPred::new("T0", vec![v(1)]))]))), vec![0, 1]),
+        (MGoal::Exists(vec![0], 0, Box::new(MGoal::Pred(MPred::new("T1", vec![v(0)])))), vec![0]),
+        (MGoal::Pred(MPred::new("T0", vec![heads[0].clone()])), vec![]),
+        (MGoal::Forall(1, 1, Box::new(MGoal::Exists(vec![0], 1, Box::new(MGoal::Pred(MPred::new("T0", vec![v(0)])))))), vec![0]),
+        (MGoal::Exists(vec![0], 0, Box::new(MGoal::Pred(MPred::new("T2", vec![v(0), leaf(r)])))), vec![0]),
+    ];
+    (p, pool)
+}
+
 /// "Propositional" programs: every impl is on the single nullary struct `S`, so the program is a random
 /// propositional Horn program over 3-5 atoms `S: Ti` with dense (mutual) recursion, several clauses per atom and
 /// facts. All traits inductive, or all #[coinductive] (no mixed cycles). The search graphs of both solvers then
